@@ -337,8 +337,10 @@ Steps(S, t) ==
            [] T.sub = "acqok" -> One(End(S, t), [ev |-> "BhAcquired", w |-> T.w.kk, ok |-> TRUE])
            [] T.sub = "took" -> One(End(S, t), [ev |-> "BhTake", id |-> id, ok |-> TRUE])
            [] T.sub = "full" -> One(End(S, t), [ev |-> "BhTake", id |-> id, ok |-> FALSE]))
-    [] T.mode = "onfull" ->       \* the bulkhead refused (ErrFull): OnFull listener, then the failure result goes up
-         One(Ret(S, t, T.i - 1, Failure(Leaf("ErrFull"))), Lab("OnFull", S, t, T.i, XX(S, t).last[T.obj], NoX))
+    [] T.mode = "onfull" ->       \* the bulkhead refused (ErrFull): the listener gets a copy of the execution taken now ...
+         Silent([S EXCEPT !.th[t].mode = "onfull2", !.th[t].snap = XX(S, t).last[T.obj]])
+    [] T.mode = "onfull2" ->      \* ... OnFull listener, then the failure result goes up
+         One(Ret(S, t, T.i - 1, Failure(Leaf("ErrFull"))), Lab("OnFull", S, t, T.i, T.snap, NoX))
     [] T.mode = "hedgecnt" -> Silent([SetX(S, t, [XX(S, t) EXCEPT !.hdg = @ + 1]) EXCEPT !.th[t].mode = "hedgeev"])
     [] T.mode = "hedgeev" ->      \* OnHedge listener, then `go attempt`, then wait for a result or the next hedge delay
          LET i == T.i   p == Stack[i]   h == T.hg[i]   X == XX(S, t)   c == h.aobj[Len(h.aobj)]
